@@ -159,7 +159,11 @@ class Engine:
         if r == 'unsat':
             raise Abort()
         if r != 'sat':
-            raise Inconclusive(f'solver returned {r} while looking for a path model')
+            # no model to guide the branch order on this path (feasibility undecided): carry on without guidance
+            self.q['unknown'] = max(0, self.q.get('unknown', 0) - 1)
+            self.q['unknown_branch_explored'] = self.q.get('unknown_branch_explored', 0) + 1
+            self.model = None
+            return
         self.model = self.last_model()
 
     # ------------------------------------------------------------------ branching
@@ -194,7 +198,11 @@ class Engine:
         if r == 'sat':
             self.pending.append(self.decisions[:self.pos] + [('b', not v)])
         elif r != 'unsat':
-            raise Inconclusive(f'solver returned {r} on a branch condition')
+            # feasibility of the other side undecided: explore it as if feasible. Sound: an infeasible path can only add vacuous
+            # obligations (or a counterexample that does not replay, which is reported as inconclusive), it cannot hide anything
+            self.q['unknown'] = max(0, self.q.get('unknown', 0) - 1)
+            self.q['unknown_branch_explored'] = self.q.get('unknown_branch_explored', 0) + 1
+            self.pending.append(self.decisions[:self.pos] + [('b', not v)])
         self.decisions.append(('b', v))
         self.pos += 1
         self._assume(cond if v else z3.Not(cond))
